@@ -68,6 +68,16 @@ CLAIMED = {
         "technique": "z3 regular-expression inclusion queries on a translation of the live regex + CrossHair symbolic execution",
         "engine": "z3re+xh",
     },
+    "C05": {
+        "design_ref": "DESIGN.md section 5 C05",
+        "text": ("Bounded symbolic execution of preprocess_args + Signature.bind_arguments on every parameter list of <= 3 (quick) / "
+                 "<= 4 (thorough) parameters over all kinds and default patterns: the call shape (positional count, keyword presence, "
+                 "*tuple / **dict literals, duplicated names, unknown-length *args / **kwargs) is symbolic; the oracle is CPython "
+                 "itself - a def generated from the spec is really called with each path's concrete shape; for unknown-length stars "
+                 "expansions are enumerated up to length 4 / all name subsets."),
+        "note": _NOTE + " E3 checks the generated def against its spec and records where inspect.Signature.bind deviates from a real call (it does in 3.12: positional-only names passed into **kwargs).",
+        "technique": "CrossHair symbolic execution + z3; differential against real CPython calls inside each path",
+    },
 }
 
 _PENDING = "harness not landed yet in this commit (build in progress; see DESIGN.md section 9)"
